@@ -9,6 +9,17 @@ stream) is additionally recomputed with the `openssl enc` command, so a
 mistake in the driver or in refaes cannot pass silently; a disagreement there
 is a harness failure (inconclusive), never a violation.
 
+Far-offset streams: crypto/crypto_aesctr.c has, under LIBCPERCIVA_VERIF (always
+defined by the framework's builds), the hook crypto_aesctr_verif_seek(stream,
+nblocks), which puts a freshly initialised stream into the state it has after
+nblocks whole blocks.  The `F` cases move a stream to block 2^e - d
+(e = 8, 16, ..., 56) and let bulk calls, sub-block calls and 0-length calls
+cross block 2^e; the model is evaluated at the absolute block index, so the
+counter carries into every byte of the 64-bit block counter are judged
+without streaming 2^e blocks.  Block 2^64 is not a case: the statement numbers
+blocks with a 64-bit index and says nothing about a wrap, and the library's
+64-bit byte position ends a stream at block 2^60 already.
+
 Both library paths are exercised with the same cases: build `hw` (all CPU
 features: AES-NI block + bulk CTR code) and build `sw` (no AES-NI compiled in:
 OpenSSL AES_encrypt + the portable incremental CTR loop).
